@@ -1,4 +1,974 @@
-(** Proofs about [Model/Determinism.v] (C01). *)
+(** Proofs about [Model/Determinism.v] (C01): permutation-invariance of every oracle consumer of
+    the repaired model, refinement of the caches, independence of the block results from oracle
+    families and restart placements; refutation witnesses for the faithful flags; coverage of the
+    generated site inventory. *)
 From BX Require Import Base.Prelude Model.Determinism.
+From Coq Require Import String Permutation.
 Local Open Scope N_scope.
-Lemma placeholder_tmp : 1 = 1. Proof. reflexivity. Qed.
+
+(* ------------------------------------------------------------------------------------- *)
+(** * Sorting is a function of the multiset *)
+Lemma ins_comm x y l : ins x (ins y l) = ins y (ins x l).
+Proof.
+  induction l as [|z t IH]; cbn [ins].
+  - destruct (x <=? y) eqn:A, (y <=? x) eqn:B; try reflexivity.
+    + assert (x = y) by lia. subst. reflexivity.
+    + lia.
+  - destruct (y <=? z) eqn:A, (x <=? z) eqn:B; cbn [ins]; rewrite ?A, ?B.
+    + destruct (x <=? y) eqn:C, (y <=? x) eqn:D; try reflexivity.
+      * assert (x = y) by lia. subst. reflexivity.
+      * lia.
+    + destruct (x <=? y) eqn:C; [lia|]. reflexivity.
+    + destruct (y <=? x) eqn:C; [lia|]. reflexivity.
+    + rewrite IH. reflexivity.
+Qed.
+
+Lemma fold_perm_comm {A S} (f : A -> S -> S) :
+  (forall a b s, f a (f b s) = f b (f a s)) ->
+  forall l l', Permutation l l' -> forall s, fold_right f s l = fold_right f s l'.
+Proof.
+  intros Hc l l' Hp. induction Hp; intro s; cbn [fold_right].
+  - reflexivity.
+  - rewrite IHHp. reflexivity.
+  - apply Hc.
+  - rewrite IHHp1. apply IHHp2.
+Qed.
+
+(** [fold_perm_sorted]: whatever order the map was visited in, the sorted list is the same *)
+Lemma fold_perm_sorted l l' : Permutation l l' -> isort l = isort l'.
+Proof. intro Hp. unfold isort. apply fold_perm_comm; [|exact Hp]. intros. apply ins_comm. Qed.
+
+Lemma fold_perm_forallb {A} (p : A -> bool) l l' : Permutation l l' -> forallb p l = forallb p l'.
+Proof.
+  intro Hp. induction Hp; cbn [forallb].
+  - reflexivity.
+  - rewrite IHHp. reflexivity.
+  - destruct (p x), (p y); reflexivity.
+  - rewrite IHHp1. exact IHHp2.
+Qed.
+
+Lemma fold_perm_existsb {A} (p : A -> bool) l l' : Permutation l l' -> existsb p l = existsb p l'.
+Proof.
+  intro Hp. induction Hp; cbn [existsb].
+  - reflexivity.
+  - rewrite IHHp. reflexivity.
+  - destruct (p x), (p y); reflexivity.
+  - rewrite IHHp1. exact IHHp2.
+Qed.
+
+(* ------------------------------------------------------------------------------------- *)
+(** * Sorted association lists *)
+Section SMapFacts.
+  Context {V : Type}.
+  Implicit Types m : smap V.
+
+  Lemma sget_sset_same k v m : sget k (sset k v m) = Some v.
+  Proof.
+    induction m as [|[k' v'] t IH]; cbn [sset sget].
+    - rewrite N.eqb_refl. reflexivity.
+    - destruct (k <? k') eqn:A; cbn [sget].
+      + rewrite N.eqb_refl. reflexivity.
+      + destruct (k =? k') eqn:B; cbn [sget].
+        * rewrite N.eqb_refl. reflexivity.
+        * rewrite B. exact IH.
+  Qed.
+
+  Lemma sget_sset_other k k' v m : k <> k' -> sget k (sset k' v m) = sget k m.
+  Proof.
+    intro Hn. induction m as [|[k2 v2] t IH]; cbn [sset sget].
+    - destruct (k =? k') eqn:A; [lia|reflexivity].
+    - destruct (k' <? k2) eqn:A; cbn [sget].
+      + destruct (k =? k') eqn:B; [lia|reflexivity].
+      + destruct (k' =? k2) eqn:B; cbn [sget].
+        * assert (k' = k2) by lia. subst k2.
+          destruct (k =? k') eqn:C; [lia|reflexivity].
+        * destruct (k =? k2); [reflexivity|exact IH].
+  Qed.
+
+  Lemma sset_comm k1 k2 v1 v2 m : k1 <> k2 -> sset k1 v1 (sset k2 v2 m) = sset k2 v2 (sset k1 v1 m).
+  Proof.
+    intro Hn. induction m as [|[k v] t IH]; cbn [sset].
+    all: repeat (match goal with
+                 | |- context [?a <? ?b] => let E := fresh "E" in destruct (a <? b) eqn:E
+                 | |- context [?a =? ?b] => let E := fresh "E" in destruct (a =? b) eqn:E
+                 end; cbn [sset]).
+    all: try reflexivity; try (exfalso; lia).
+    all: try (rewrite IH; reflexivity).
+    all: repeat match goal with H : (?a =? ?b) = true |- _ => apply N.eqb_eq in H; subst end.
+    all: try reflexivity; try (exfalso; lia).
+  Qed.
+
+  (** a keyed write whose value is a function of the key commutes with itself *)
+  Lemma keyed_write_comm (g : N -> V) a b m : sset a (g a) (sset b (g b) m) = sset b (g b) (sset a (g a) m).
+  Proof. destruct (N.eq_dec a b) as [->|Hn]; [reflexivity|apply sset_comm; exact Hn]. Qed.
+
+  (** strictly ascending keys *)
+  Fixpoint ssorted m : Prop :=
+    match m with
+    | [] => True
+    | (k, _) :: t => (forall k', In k' (skeys t) -> k < k') /\ ssorted t
+    end.
+
+  Lemma skeys_sset k v m k' : In k' (skeys (sset k v m)) -> k' = k \/ In k' (skeys m).
+  Proof.
+    induction m as [|[k2 v2] t IH]; cbn [sset skeys map fst In].
+    - intros [H|[]]. left. symmetry. exact H.
+    - destruct (k <? k2) eqn:A; cbn [skeys map fst In].
+      + intros [H|H]; [left; symmetry; exact H|right; exact H].
+      + destruct (k =? k2) eqn:B; cbn [skeys map fst In].
+        * intros [H|H]; [left; symmetry; exact H|right; right; exact H].
+        * intros [H|H]; [right; left; exact H|].
+          destruct (IH H) as [E|E]; [left; exact E|right; right; exact E].
+  Qed.
+
+  Lemma ssorted_sset k v m : ssorted m -> ssorted (sset k v m).
+  Proof.
+    induction m as [|[k2 v2] t IH]; cbn [sset ssorted].
+    - intros _. split; [intros k' []|exact I].
+    - intros [Hlt Hs]. destruct (k <? k2) eqn:A; cbn [ssorted].
+      + split; [|split; assumption].
+        intros k' Hin. cbn [skeys map fst In] in Hin. destruct Hin as [<-|Hin]; [lia|].
+        specialize (Hlt _ Hin). lia.
+      + destruct (k =? k2) eqn:B; cbn [ssorted].
+        * assert (k = k2) by lia. subst k2. split; assumption.
+        * split; [|apply IH; exact Hs].
+          intros k' Hin. destruct (skeys_sset _ _ _ _ Hin) as [->|Hin2]; [lia|apply Hlt; exact Hin2].
+  Qed.
+
+  Lemma sget_none_lt k m : (forall k', In k' (skeys m) -> k < k') -> sget k m = None.
+  Proof.
+    induction m as [|[k2 v2] t IH]; cbn [sget]; intro H; [reflexivity|].
+    assert (k < k2) by (apply H; left; reflexivity).
+    destruct (k =? k2) eqn:A; [lia|]. apply IH. intros k' Hin. apply H. right. exact Hin.
+  Qed.
+
+  (** writing what is already there changes nothing (canonical representation) *)
+  Lemma sset_same k v m : ssorted m -> sget k m = Some v -> sset k v m = m.
+  Proof.
+    induction m as [|[k2 v2] t IH]; cbn [sget sset ssorted]; [discriminate|].
+    intros [Hlt Hs] Hg. destruct (k =? k2) eqn:A.
+    - assert (k = k2) by lia. subst k2. inversion Hg; subst. rewrite N.ltb_irrefl. reflexivity.
+    - destruct (k <? k2) eqn:B.
+      + (* k below the head: it cannot be further down *)
+        rewrite sget_none_lt in Hg; [discriminate|].
+        intros k' Hin. specialize (Hlt _ Hin). lia.
+      + rewrite IH; [reflexivity|exact Hs|exact Hg].
+  Qed.
+
+  (** extensionality of sorted maps *)
+  Lemma smap_ext m1 : forall m2, ssorted m1 -> ssorted m2 -> (forall k, sget k m1 = sget k m2) -> m1 = m2.
+  Proof.
+    induction m1 as [|[k1 v1] t1 IH]; intros [|[k2 v2] t2] S1 S2 H.
+    - reflexivity.
+    - specialize (H k2). cbn [sget] in H. rewrite N.eqb_refl in H. discriminate.
+    - specialize (H k1). cbn [sget] in H. rewrite N.eqb_refl in H. discriminate.
+    - cbn [ssorted] in S1, S2. destruct S1 as [L1 S1], S2 as [L2 S2].
+      assert (k1 = k2) as ->.
+      { pose proof (H k1) as H1. pose proof (H k2) as H2. cbn [sget] in H1, H2.
+        rewrite N.eqb_refl in H1, H2.
+        destruct (k1 =? k2) eqn:A; [lia|].
+        destruct (k2 =? k1) eqn:B; [lia|].
+        (* k1 occurs in t2, k2 occurs in t1: contradiction with both heads being minimal *)
+        assert (In k1 (skeys t2)) as I1.
+        { clear - H1. induction t2 as [|[k v] t IHt]; cbn [sget] in H1; [discriminate|].
+          destruct (k1 =? k) eqn:E; [left; cbn; lia|right; apply IHt; exact H1]. }
+        assert (In k2 (skeys t1)) as I2.
+        { clear - H2. symmetry in H2. induction t1 as [|[k v] t IHt]; cbn [sget] in H2; [discriminate|].
+          destruct (k2 =? k) eqn:E; [left; cbn; lia|right; apply IHt; exact H2]. }
+        specialize (L1 _ I2). specialize (L2 _ I1). lia. }
+      assert (v1 = v2) as ->.
+      { specialize (H k2). cbn [sget] in H. rewrite N.eqb_refl in H. inversion H. reflexivity. }
+      f_equal. apply IH; [exact S1|exact S2|].
+      intro k. specialize (H k). cbn [sget] in H. destruct (k =? k2) eqn:A; [|exact H].
+      assert (k = k2) by lia. subst k.
+      rewrite (sget_none_lt k2 t1 L1), (sget_none_lt k2 t2 L2). reflexivity.
+  Qed.
+End SMapFacts.
+
+(* ------------------------------------------------------------------------------------- *)
+(** * Every oracle consumer of the repaired model is permutation-invariant:
+      execution under any admissible oracle equals execution under the identity oracle *)
+Section OneOracle.
+  Variable cfg : Defects.
+  Hypothesis Hclean : c01_clean cfg.
+  Variable o : oracle.
+  Hypothesis Hok : oracle_ok o.
+  Variable base : smap val.
+  Variable h : N.
+
+  Lemma visit_perm s i l : Permutation (visit o h s i l) l.
+  Proof. destruct Hok as [H _]. apply H. Qed.
+  Lemma visit_id s i l : visit o_id h s i l = l.
+  Proof. reflexivity. Qed.
+
+  Lemma visit_isort s i l : isort (visit o h s i l) = isort l.
+  Proof. apply fold_perm_sorted, visit_perm. Qed.
+  Lemma pick_false s i l : pick o h false s i l = isort l.
+  Proof. unfold pick. apply visit_isort. Qed.
+  Lemma pick_false_id s i l : pick o_id h false s i l = isort l.
+  Proof. reflexivity. Qed.
+
+  Lemma visit_fold {S} (f : N -> S -> S) s i l x :
+    (forall a b y, f a (f b y) = f b (f a y)) ->
+    fold_right f x (visit o h s i l) = fold_right f x l.
+  Proof. intro Hc. apply fold_perm_comm; [exact Hc|apply visit_perm]. Qed.
+
+  Lemma visit_set_all st s i l c : set_all st (visit o h s i l) c = set_all st l c.
+  Proof. unfold set_all. apply visit_fold. intros a b y. apply (keyed_write_comm (fun _ => st)). Qed.
+
+  Lemma visit_forallb (p : N -> bool) s i l : forallb p (visit o h s i l) = forallb p l.
+  Proof. apply fold_perm_forallb, visit_perm. Qed.
+
+  Lemma copy_step_comm {A} (m : smap A) a b y : copy_step m a (copy_step m b y) = copy_step m b (copy_step m a y).
+  Proof.
+    unfold copy_step. destruct (sget a m) eqn:Ea, (sget b m) eqn:Eb; try reflexivity.
+    destruct (N.eq_dec a b) as [->|Hn]; [congruence|apply sset_comm; exact Hn].
+  Qed.
+
+  Lemma keyed_copy_id {A} site (m : smap A) : keyed_copy o h site m = keyed_copy o_id h site m.
+  Proof. unfold keyed_copy. rewrite visit_fold; [reflexivity|apply copy_step_comm]. Qed.
+
+  Lemma commit_id w st : commit o h w st = commit o_id h w st.
+  Proof. unfold commit. rewrite visit_fold; [reflexivity|apply copy_step_comm]. Qed.
+
+  Lemma l2_roots_id m : l2_roots o h m = l2_roots o_id h m.
+  Proof. unfold l2_roots. rewrite visit_isort. reflexivity. Qed.
+
+  Lemma counter_step_comm m a b y : counter_step m a (counter_step m b y) = counter_step m b (counter_step m a y).
+  Proof.
+    destruct (N.eq_dec a b) as [->|Hn]; [reflexivity|].
+    unfold counter_step.
+    destruct (sget a m) as [[ia xa]|] eqn:Ea, (sget b m) as [[ib xb]|] eqn:Eb; try reflexivity.
+    rewrite (sget_sset_other a b) by exact Hn.
+    rewrite (sget_sset_other b a) by (intro E; apply Hn; symmetry; exact E).
+    apply sset_comm. exact Hn.
+  Qed.
+
+  Lemma add_counter_id i r c : add_counter o h i r c = add_counter o_id h i r c.
+  Proof.
+    unfold add_counter. destruct (rc_interchain r); [|reflexivity].
+    rewrite visit_fold; [reflexivity|apply counter_step_comm].
+  Qed.
+
+  Lemma counters_id rs : forall i c, counters o h i rs c = counters o_id h i rs c.
+  Proof.
+    induction rs as [|r t IH]; intros i c; cbn [counters]; [reflexivity|].
+    rewrite add_counter_id. apply IH.
+  Qed.
+
+  Lemma acct_entries_id a w : acct_entries o h a w = acct_entries o_id h a w.
+  Proof. unfold acct_entries. rewrite visit_isort. reflexivity. Qed.
+
+  (** the hashed part of FlushDirtyData (the journal order, first component, is not a result) *)
+  Lemma flush_dirty_id w : snd (flush o h w) = snd (flush o_id h w).
+  Proof.
+    unfold flush. cbn [snd]. rewrite visit_isort. rewrite visit_id.
+    apply map_ext. intro a. rewrite acct_entries_id. reflexivity.
+  Qed.
+
+  Lemma multi_finished_id i st count ch : multi_finished o h i st count ch = multi_finished o_id h i st count ch.
+  Proof. unfold multi_finished. rewrite visit_forallb. reflexivity. Qed.
+End OneOracle.
+
+Section OneOracle2.
+  Variable cfg : Defects.
+  Hypothesis Hclean : c01_clean cfg.
+  Variable o : oracle.
+  Hypothesis Hok : oracle_ok o.
+  Variable base : smap val.
+  Variable h : N.
+
+  Let Hn : d_notify_unsorted cfg = false. Proof. destruct Hclean as (H & _). exact H. Qed.
+  Let Ht : d_timeout_child_order cfg = false. Proof. destruct Hclean as (_ & H & _). exact H. Qed.
+  Let Hf : d_first_error_order cfg = false. Proof. destruct Hclean as (_ & _ & H & _). exact H. Qed.
+
+  Lemma begin_multi_id i w b g count f :
+    begin_multi cfg o base h i w b g count f = begin_multi cfg o_id base h i w b g count f.
+  Proof.
+    unfold begin_multi. rewrite Hn.
+    destruct (rdw base w (K_glob g)) as [[| | |gs gh gc ch| |]|].
+    4: { destruct (sget (ib_id b) ch); [reflexivity|].
+         destruct (is_final gs); [reflexivity|].
+         destruct (negb (gs =? ST_BEGIN)); [|destruct f].
+         all: rewrite ?(pick_false o Hok), ?pick_false_id, ?(visit_set_all o Hok), ?visit_id; reflexivity. }
+    all: rewrite ?(pick_false o Hok), ?pick_false_id; reflexivity.
+  Qed.
+
+  Lemma succeeded_comm (ch : smap N) a b (y : smap bool) :
+    sset a (match sget a ch with Some 3 => true | _ => false end) (sset b (match sget b ch with Some 3 => true | _ => false end) y)
+    = sset b (match sget b ch with Some 3 => true | _ => false end) (sset a (match sget a ch with Some 3 => true | _ => false end) y).
+  Proof. apply (keyed_write_comm (fun k => match sget k ch with Some 3 => true | _ => false end)). Qed.
+
+  Lemma report_id i w b : report cfg o base h i w b = report cfg o_id base h i w b.
+  Proof.
+    unfold report. rewrite Hn.
+    destruct (rdw base w (K_tx (ib_id b))) as [[| |st hh| | |]|]; try reflexivity.
+    all: destruct (rdw base w (K_child (ib_id b))) as [[|g| | | |]|]; try reflexivity.
+    all: destruct (rdw base w (K_glob g)) as [[| | |gs gh gc ch| |]|]; try reflexivity.
+    all: destruct (sget (ib_id b) ch) as [cst|]; try reflexivity.
+    all: rewrite (visit_fold o Hok) by (intros; apply succeeded_comm).
+    all: rewrite (visit_set_all o Hok), !visit_id.
+    all: destruct ((gs =? ST_BEGIN) && (ib_typ b =? 2)).
+    all: try (rewrite (pick_false o Hok), pick_false_id, (visit_isort o Hok); reflexivity).
+    all: destruct (fsm_receipt cst (ib_typ b)) as [cst'|]; try reflexivity.
+    all: rewrite (multi_finished_id o Hok).
+    all: destruct (multi_finished o_id h i cst' gc (sset (ib_id b) cst' ch)).
+    all: try destruct (fsm_receipt gs (ib_typ b)); try reflexivity.
+    all: rewrite (pick_false o Hok), pick_false_id, (visit_isort o Hok); reflexivity.
+  Qed.
+
+  Lemma handle_ibtp_id i cache w b cur :
+    handle_ibtp cfg o base h i cache w b cur = handle_ibtp cfg o_id base h i cache w b cur.
+  Proof.
+    unfold handle_ibtp.
+    destruct (negb ((ib_typ b =? 0) || (ib_typ b =? 1) || (ib_typ b =? 2) || (ib_typ b =? 3))); [reflexivity|].
+    lazy zeta.
+    match goal with |- context [match ?c with inl _ => _ | inr _ => _ end] => destruct c as [[isBatch tfail]|e] end; [|reflexivity].
+    destruct (ib_typ b =? 0).
+    - destruct (ib_group b) as [[g count]|]; [rewrite begin_multi_id|]; reflexivity.
+    - rewrite report_id. reflexivity.
+  Qed.
+
+  Lemma exec_tx_id i inv v t : exec_tx cfg o base h i inv v t = exec_tx cfg o_id base h i inv v t.
+  Proof.
+    unfold exec_tx. rewrite Hf. destruct inv; [reflexivity|].
+    destruct t; try reflexivity.
+    - rewrite (pick_false o Hok), pick_false_id. reflexivity.
+    - rewrite handle_ibtp_id. reflexivity.
+    - rewrite handle_ibtp_id. reflexivity.
+  Qed.
+
+  Lemma exec_txs_id ts : forall i inv v, exec_txs cfg o base h i inv v ts = exec_txs cfg o_id base h i inv v ts.
+  Proof.
+    induction ts as [|t rest IH]; intros i inv v; cbn [exec_txs]; [reflexivity|].
+    rewrite exec_tx_id. destruct (exec_tx cfg o_id base h i _ v t) as [v1 r]. rewrite IH. reflexivity.
+  Qed.
+End OneOracle2.
+
+Section OneOracle3.
+  Variable cfg : Defects.
+  Hypothesis Hclean : c01_clean cfg.
+  Variable o : oracle.
+  Hypothesis Hok : oracle_ok o.
+  Variable base : smap val.
+  Variable h : N.
+
+  Let Ht : d_timeout_child_order cfg = false. Proof. destruct Hclean as (_ & H & _). exact H. Qed.
+
+  Lemma key_inj tag a b : key tag a = key tag b -> a = b.
+  Proof. unfold key. lia. Qed.
+
+  Lemma rdw_sset_other k k' x w : k <> k' -> rdw base (sset k' x w) k = rdw base w k.
+  Proof. intro Hne. unfold rdw. rewrite sget_sset_other by exact Hne. reflexivity. Qed.
+
+  Lemma toks_sset_other h1 h2 x w : h1 <> h2 -> toks_of base (sset (K_tl h2) x w) h1 = toks_of base w h1.
+  Proof.
+    intro Hne. unfold toks_of. rewrite rdw_sset_other; [reflexivity|].
+    intro E. apply Hne. apply (key_inj 7). exact E.
+  Qed.
+
+  Lemma stl_add_comm adds a b w : stl_add base adds a (stl_add base adds b w) = stl_add base adds b (stl_add base adds a w).
+  Proof.
+    destruct (N.eq_dec a b) as [->|Hne]; [reflexivity|].
+    assert (Hk : K_tl a <> K_tl b) by (intro E; apply Hne; apply (key_inj 7); exact E).
+    unfold stl_add.
+    destruct (sget a adds) as [ia|], (sget b adds) as [ib|]; try reflexivity.
+    destruct (toks_of base w a) as [la|] eqn:Ea, (toks_of base w b) as [lb|] eqn:Eb.
+    all: rewrite !toks_sset_other by (auto; intro E; apply Hne; symmetry; exact E).
+    all: rewrite ?Ea, ?Eb.
+    all: apply sset_comm; exact Hk.
+  Qed.
+
+  Lemma stl_remove_comm rems a b w : stl_remove base rems a (stl_remove base rems b w) = stl_remove base rems b (stl_remove base rems a w).
+  Proof.
+    destruct (N.eq_dec a b) as [->|Hne]; [reflexivity|].
+    assert (Hk : K_tl a <> K_tl b) by (intro E; apply Hne; apply (key_inj 7); exact E).
+    unfold stl_remove.
+    destruct (sget a rems) as [ia|], (sget b rems) as [ib|]; try reflexivity.
+    rewrite !toks_sset_other by (auto; intro E; apply Hne; symmetry; exact E).
+    apply sset_comm; exact Hk.
+  Qed.
+
+  Lemma set_timeout_list_id w ts rs : set_timeout_list o base h w ts rs = set_timeout_list o_id base h w ts rs.
+  Proof.
+    unfold set_timeout_list. destruct (stl_collect base h w ts rs) as [adds rems].
+    rewrite (visit_fold o Hok) by (intros; apply stl_remove_comm).
+    rewrite (visit_fold o Hok) by (intros; apply stl_add_comm).
+    reflexivity.
+  Qed.
+
+  Lemma tim_children_id j g w m : tim_children cfg o base h j g w m = tim_children cfg o_id base h j g w m.
+  Proof.
+    unfold tim_children. rewrite Ht.
+    destruct (rdw base w (K_glob g)) as [[| | |gs gh gc ch| |]|]; try reflexivity.
+    rewrite (pick_false o Hok), pick_false_id. reflexivity.
+  Qed.
+
+  Lemma timeout_map_id w l : forall j m, timeout_map cfg o base h j w l m = timeout_map cfg o_id base h j w l m.
+  Proof.
+    induction l as [|t rest IH]; intros j m; cbn [timeout_map]; [reflexivity|].
+    destruct t; rewrite ?tim_children_id; apply IH.
+  Qed.
+
+  Lemma rollback_step_id a t : rollback_step o base h a t = rollback_step o_id base h a t.
+  Proof.
+    unfold rollback_step. destruct t; try reflexivity.
+    destruct (rdw base a (K_glob g)) as [[| | |gs gh gc ch| |]|]; try reflexivity.
+    rewrite (visit_set_all o Hok), visit_id. reflexivity.
+  Qed.
+
+  Lemma timeout_rollback_id l : forall w, timeout_rollback o base h w l = timeout_rollback o_id base h w l.
+  Proof.
+    unfold timeout_rollback. induction l as [|t rest IH]; intro w; cbn [fold_left]; [reflexivity|].
+    rewrite rollback_step_id. apply IH.
+  Qed.
+
+  Lemma invalid_map_id l : invalid_map o h l = invalid_map o_id h l.
+  Proof.
+    unfold invalid_map. destruct Hok as [_ Hs].
+    apply fold_perm_comm; [|apply Hs].
+    intros a b y. apply (keyed_write_comm (fun _ => tt)).
+  Qed.
+End OneOracle3.
+
+(* ------------------------------------------------------------------------------------- *)
+(* ------------------------------------------------------------------------------------- *)
+(** * One block: the oracle only decides the order of the persisted journal *)
+Definition core_out (x : memory * smap val * list (list (N * list (N * val))) * list N * result) :=
+  let '(m, st, root, _, r) := x in (m, st, root, r).
+
+Lemma block_core_oracle cfg o m st root b :
+  c01_clean cfg -> oracle_ok o ->
+  core_out (block_core cfg o m st root b) = core_out (block_core cfg o_id m st root b).
+Proof.
+  intros Hc Hok. unfold block_core.
+  rewrite (invalid_map_id o Hok).
+  rewrite (exec_txs_id cfg Hc o Hok).
+  destruct (exec_txs cfg o_id (overlay (m_acache m) st) (m_height m + 1) 0 _ _ (b_txs b)) as [v1 rs].
+  rewrite (set_timeout_list_id cfg Hc o Hok).
+  rewrite (timeout_map_id cfg Hc o Hok).
+  rewrite !(keyed_copy_id o Hok), (l2_roots_id o Hok), (timeout_rollback_id o Hok), !(commit_id o Hok), (counters_id o Hok).
+  match goal with |- context [flush o ?hh ?ww] => pose proof (flush_dirty_id o Hok hh ww) as Hfl; destruct (flush o hh ww) as [a1 d1]; destruct (flush o_id hh ww) as [a2 d2] end.
+  cbn [snd] in Hfl. subst d2. reflexivity.
+Qed.
+
+(* ------------------------------------------------------------------------------------- *)
+(** * Caches are refinements of the ledger *)
+Section Refine.
+  Variable cfg : Defects.
+  Variable o : oracle.
+  Variable base : smap val.
+  Variable h : N.
+
+  (** [w'] has the same service records as [w] *)
+  Definition nsvc_same (w w' : smap val) : Prop := forall k, k mod 16 = 1 -> sget k w' = sget k w.
+  Lemma nsvc_refl w : nsvc_same w w. Proof. intros k _. reflexivity. Qed.
+  Lemma nsvc_trans w1 w2 w3 : nsvc_same w1 w2 -> nsvc_same w2 w3 -> nsvc_same w1 w3.
+  Proof. intros H1 H2 k Hk. rewrite H2, H1 by exact Hk. reflexivity. Qed.
+  Lemma key_mod tag a : tag < 16 -> key tag a mod 16 = tag.
+  Proof.
+    intro Ht. unfold key. replace (tag + 16 * a) with (tag + a * 16) by lia.
+    rewrite N.mod_add by lia. apply N.mod_small. exact Ht.
+  Qed.
+  Local Opaque key.
+  Lemma nsvc_sset tag a x w : tag < 16 -> tag <> 1 -> nsvc_same w (sset (key tag a) x w).
+  Proof.
+    intros Ht Hn k Hk. apply sget_sset_other. intro E. subst k. rewrite key_mod in Hk by exact Ht. contradiction.
+  Qed.
+  Lemma nsvc_sset_tr tag a x w0 w : tag < 16 -> tag <> 1 -> nsvc_same w0 w -> nsvc_same w0 (sset (key tag a) x w).
+  Proof. intros. eapply nsvc_trans; [eassumption|apply nsvc_sset; assumption]. Qed.
+
+  Lemma led_svc_same w w' s : nsvc_same w w' -> led_svc base w' s = led_svc base w s.
+  Proof.
+    intro H. unfold led_svc, rdw. rewrite (H (K_svc s)); [reflexivity|].
+    unfold K_svc. apply key_mod. lia.
+  Qed.
+
+  Ltac nsvc := repeat first [ apply nsvc_refl | assumption | apply nsvc_sset_tr; [unfold N.lt; reflexivity | discriminate | ] ].
+
+  Lemma tm_add_nsvc w0 w hh t : nsvc_same w0 w -> nsvc_same w0 (tm_add_timeout base w hh t).
+  Proof. intro H. unfold tm_add_timeout, K_tl. destruct (toks_of base w hh); nsvc. Qed.
+  Lemma tm_remove_nsvc w0 w hh t : nsvc_same w0 w -> nsvc_same w0 (tm_remove_timeout base w hh t).
+  Proof. intro H. unfold tm_remove_timeout, K_tl. destruct (toks_of base w hh); nsvc. Qed.
+
+  Lemma begin_single_nsvc w b f : nsvc_same w (fst (begin_single h w b f)).
+  Proof. unfold begin_single, K_tx. cbn [fst]. nsvc. Qed.
+
+  Lemma begin_multi_nsvc i w b g c f w' ch : begin_multi cfg o base h i w b g c f = Some (w', ch) -> nsvc_same w w'.
+  Proof.
+    unfold begin_multi, K_child, K_glob.
+    destruct (rdw base w (key 6 g)) as [[| | |gs gh gc chh| |]|].
+    4: { destruct (sget (ib_id b) chh); [discriminate|].
+         destruct (is_final gs); [discriminate|].
+         destruct (negb (gs =? ST_BEGIN)); [|destruct f].
+         all: intro E; inversion E; subst; clear E; nsvc.
+         apply tm_remove_nsvc. nsvc. }
+    all: destruct f; intro E; inversion E; subst; clear E; nsvc; apply tm_add_nsvc; nsvc.
+  Qed.
+
+  Lemma report_nsvc i w b w' ch : report cfg o base h i w b = Some (w', ch) -> nsvc_same w w'.
+  Proof.
+    unfold report, K_tx, K_child, K_glob.
+    destruct (rdw base w (key 4 (ib_id b))) as [[| |st hh| | |]|].
+    3: { destruct (fsm_receipt st (ib_typ b)); [|discriminate]. intro E; inversion E; subst; nsvc. }
+    all: destruct (rdw base w (key 5 (ib_id b))) as [[|g| | | |]|]; try discriminate.
+    all: destruct (rdw base w (key 6 g)) as [[| | |gs gh gc chh| |]|]; try discriminate.
+    all: destruct (sget (ib_id b) chh) as [cst|]; try discriminate.
+    all: destruct ((gs =? ST_BEGIN) && (ib_typ b =? 2)).
+    all: try (intro E; inversion E; subst; clear E; nsvc; apply tm_remove_nsvc; nsvc).
+    all: destruct (fsm_receipt cst (ib_typ b)) as [cst'|]; try discriminate.
+    all: destruct (multi_finished o h i cst' gc (sset (ib_id b) cst' chh)).
+    all: try (destruct (fsm_receipt gs (ib_typ b)); try discriminate).
+    all: intro E; inversion E; subst; clear E; nsvc; apply tm_remove_nsvc; nsvc.
+  Qed.
+
+  Lemma add_multi_nsvc w0 w hh ids ts : nsvc_same w0 w -> nsvc_same w0 (add_multi cfg base w hh ids ts).
+  Proof. intro H. unfold add_multi, K_multi. destruct ids; nsvc. Qed.
+
+  (** service cache: every entry is what the ledger (as seen in this block) says *)
+  Definition cache_ok (c : smap svcrec) (w : smap val) : Prop :=
+    forall s r, sget s c = Some r -> led_svc base w s = Some r.
+  Lemma cache_ok_same c w w' : nsvc_same w w' -> cache_ok c w -> cache_ok c w'.
+  Proof. intros Hs Hc s r Hg. rewrite (led_svc_same _ _ _ Hs). apply Hc. exact Hg. Qed.
+  Lemma cache_ok_nil w : cache_ok [] w. Proof. intros s r Hg. discriminate. Qed.
+  Lemma svc_lookup_ok c w s : cache_ok c w -> svc_lookup base c w s = svc_lookup base [] w s.
+  Proof.
+    intro Hc. unfold svc_lookup. cbn [sget]. destruct (sget s c) as [r|] eqn:E; [|reflexivity].
+    symmetry. apply Hc. exact E.
+  Qed.
+
+  Lemma handle_ibtp_cache i c w b cur : cache_ok c w ->
+    handle_ibtp cfg o base h i c w b cur = handle_ibtp cfg o base h i [] w b cur.
+  Proof. intro Hc. unfold handle_ibtp. rewrite !(svc_lookup_ok c w) by exact Hc. reflexivity. Qed.
+End Refine.
+
+Section Refine2.
+  Variable cfg : Defects.
+  Variable o : oracle.
+  Variable base : smap val.
+  Variable h : N.
+  Local Opaque key.
+
+  Definition ev_ok (w : smap val) (e : N * svcrec) : Prop := led_svc base w (fst e) = Some (snd e).
+
+  Lemma record_service_ok w wa s e : nsvc_same w wa -> In e (record_service base wa s) -> ev_ok w e.
+  Proof.
+    intros Hs Hin. unfold record_service in Hin. destruct (led_svc base wa s) as [r|] eqn:E; [|destruct Hin].
+    destruct Hin as [<-|[]]. unfold ev_ok. cbn [fst snd]. rewrite <- (led_svc_same base _ _ s Hs). exact E.
+  Qed.
+
+  Lemma fold_children_ok w cs : forall wa ea,
+    nsvc_same w wa -> (forall e, In e ea -> ev_ok w e) ->
+    let '(w4, sev) := fold_left (fun (acc : smap val * list (N * svcrec)) c =>
+                                   let '(wa, ea) := acc in
+                                   (sset (K_rc (id_src c) (id_dst c)) (VNum (id_idx c)) wa, ea ++ record_service base wa (id_dst c)))
+                                cs (wa, ea) in
+    nsvc_same w w4 /\ (forall e, In e sev -> ev_ok w e).
+  Proof.
+    induction cs as [|c rest IH]; intros wa ea Hs He; cbn [fold_left].
+    - split; assumption.
+    - apply IH.
+      + unfold K_rc. apply nsvc_sset_tr; [reflexivity|discriminate|exact Hs].
+      + intros e Hin. apply in_app_or in Hin. destruct Hin as [Hin|Hin]; [apply He; exact Hin|].
+        eapply record_service_ok; eassumption.
+  Qed.
+
+  Lemma handle_ibtp_refines i c w b cur :
+    let '(w', r, _) := handle_ibtp cfg o base h i c w b cur in
+    nsvc_same w w' /\ (forall e, In e (rc_svc_events r) -> ev_ok w e).
+  Proof.
+    assert (Htriv : forall rr, nsvc_same w w /\ (forall e, In e (rc_svc_events (failed rr)) -> ev_ok w e)).
+    { intro rr. split; [apply nsvc_refl|intros e []]. }
+    unfold handle_ibtp.
+    destruct (negb ((ib_typ b =? 0) || (ib_typ b =? 1) || (ib_typ b =? 2) || (ib_typ b =? 3))); [apply Htriv|].
+    lazy zeta.
+    match goal with |- context [match ?cc with inl _ => _ | inr _ => _ end] => destruct cc as [[isBatch tfail]|e] end; [|apply Htriv].
+    destruct (ib_typ b =? 0).
+    - (* request *)
+      assert (Hreq : forall w1 ch, nsvc_same w w1 ->
+        let '(w', r, _) :=
+          (let '(nsrc, ndst) := notify_flags (ch_prev ch) (ch_cur ch) in
+           let '(ev1, w2) := if nsrc then (sset (chain_of (ib_src b)) (isBatch, i) [], add_multi cfg base w1 cur (ch_src ch) true) else ([], w1) in
+           let '(ev2, w3) := if ndst then (if ch_fail_child ch then ev1 else sset (chain_of (ib_dst b)) (isBatch, i) ev1, add_multi cfg base w2 cur (ch_dst ch) false) else (ev1, w2) in
+           (sset (K_ic (ib_src b) (ib_dst b)) (VNum (num base w3 (K_ic (ib_src b) (ib_dst b)) + 1)) w3,
+            Build_receipt true tfail (if isBatch then RBatch else if tfail then RBeginFailure else RNone) (Some ev2) [], false)) in
+        nsvc_same w w' /\ (forall e, In e (rc_svc_events r) -> ev_ok w e)).
+      { intros w1 ch H1. destruct (notify_flags (ch_prev ch) (ch_cur ch)) as [[|] [|]]; cbn [rc_svc_events].
+        all: split; [|intros e []].
+        all: unfold K_ic; apply nsvc_sset_tr; [reflexivity|discriminate|].
+        all: repeat apply add_multi_nsvc; exact H1. }
+      destruct (ib_group b) as [[g count]|].
+      + destruct (begin_multi cfg o base h i w b g count tfail) as [[w1 ch]|] eqn:E; [|apply Htriv].
+        apply Hreq. eapply begin_multi_nsvc. exact E.
+      + apply (Hreq (fst (begin_single h w b tfail)) (snd (begin_single h w b tfail))). apply begin_single_nsvc.
+    - (* receipt *)
+      destruct (report cfg o base h i w b) as [[w1 ch]|] eqn:E; [|apply Htriv].
+      pose proof (report_nsvc cfg o base h i w b w1 ch E) as H1.
+      destruct (notify_flags (ch_prev ch) (ch_cur ch)) as [[|] [|]].
+      all: match goal with |- context [if is_final ?x then _ else _] => destruct (is_final x) end.
+      all: try (cbn [rc_svc_events]; split; [repeat apply add_multi_nsvc; exact H1|intros e []]).
+      all: destruct (ch_children ch) as [|c0 cs].
+      all: try (cbn [rc_svc_events]; split;
+                [unfold K_rc; apply nsvc_sset_tr; [reflexivity|discriminate|repeat apply add_multi_nsvc; exact H1]
+                |intros e Hin; eapply record_service_ok; [|exact Hin]; repeat apply add_multi_nsvc; exact H1]).
+      all: match goal with |- context [fold_left ?F ?l (?wa, [])] =>
+             pose proof (fold_children_ok w l wa []) as Hfold; cbv beta in Hfold;
+             destruct (fold_left F l (wa, [])) as [w4 sev] end.
+      all: cbn [rc_svc_events]; apply Hfold; [repeat apply add_multi_nsvc; exact H1|intros e []].
+  Qed.
+End Refine2.
+
+Lemma key_inj' tag a b : key tag a = key tag b -> a = b.
+Proof. Local Transparent key. unfold key. lia. Qed.
+Lemma rdw_sset_other' base k k' x w : k <> k' -> rdw base (sset k' x w) k = rdw base w k.
+Proof. intro Hne. unfold rdw. rewrite sget_sset_other by exact Hne. reflexivity. Qed.
+
+Section Pure.
+  Variable cfg : Defects.
+  Hypothesis Hclean : c01_clean cfg.
+  Variable o : oracle.
+  Variable base : smap val.
+  Variable h : N.
+
+  Let Hf : d_first_error_order cfg = false. Proof. destruct Hclean as (_ & _ & H & _). exact H. Qed.
+  Let Hce : d_cache_failed_events cfg = false. Proof. destruct Hclean as (_ & _ & _ & _ & H & _). exact H. Qed.
+  Let Hsi : d_singleton_mem cfg = false. Proof. destruct Hclean as (_ & _ & _ & _ & _ & H & _). exact H. Qed.
+  Let Hsp : d_stale_persister cfg = false. Proof. destruct Hclean as (_ & _ & _ & _ & _ & _ & H). exact H. Qed.
+
+  (** what a transaction does to the block's write set, computed without any node-local memory *)
+  Definition tx_pure (i : N) (inv : bool) (w : smap val) (t : tx) : smap val * receipt :=
+    let '(v', r) := exec_tx cfg o base h i inv (Build_view w [] false false) t in (v_w v', r).
+  Fixpoint txs_pure (i : N) (inv : smap unit) (w : smap val) (ts : list tx) : smap val * list receipt :=
+    match ts with
+    | [] => (w, [])
+    | t :: rest =>
+        let '(w1, r) := tx_pure i (match sget i inv with Some _ => true | None => false end) w t in
+        let '(w2, rs) := txs_pure (i + 1) inv w1 rest in
+        (w2, r :: rs)
+    end.
+
+  Lemma cache_store_step c w e : cache_ok base c w -> ev_ok base w e -> cache_ok base (sset (fst e) (snd e) c) w.
+  Proof.
+    intros Hc He s r Hg. destruct (N.eq_dec s (fst e)) as [->|Hne].
+    - rewrite sget_sset_same in Hg. inversion Hg; subst. exact He.
+    - rewrite sget_sset_other in Hg by exact Hne. apply Hc. exact Hg.
+  Qed.
+  Lemma cache_store_ok evs : forall c w, cache_ok base c w -> (forall e, In e evs -> ev_ok base w e) -> cache_ok base (cache_store c evs) w.
+  Proof.
+    unfold cache_store. induction evs as [|e rest IH]; intros c w Hc He; cbn [fold_left]; [exact Hc|].
+    apply IH.
+    - apply cache_store_step; [exact Hc|apply He; left; reflexivity].
+    - intros e' Hin. apply He. right. exact Hin.
+  Qed.
+
+  Lemma gov_cache_ok evs : forall c w, cache_ok base c w ->
+    cache_ok base (cache_store c evs) (fold_left (fun a e => sset (K_svc (fst e)) (VSvc (snd e)) a) evs w).
+  Proof.
+    unfold cache_store. induction evs as [|e rest IH]; intros c w Hc; cbn [fold_left]; [exact Hc|].
+    apply IH. intros s r Hg. destruct (N.eq_dec s (fst e)) as [->|Hne].
+    - rewrite sget_sset_same in Hg. inversion Hg; subst.
+      unfold led_svc, rdw. rewrite sget_sset_same. reflexivity.
+    - rewrite sget_sset_other in Hg by exact Hne.
+      unfold led_svc. rewrite rdw_sset_other'.
+      + apply Hc. exact Hg.
+      + unfold K_svc. intro E. apply Hne. apply (key_inj' 1). exact E.
+  Qed.
+
+  Lemma exec_tx_pure i inv v t : cache_ok base (v_cache v) (v_w v) ->
+    let '(v', r) := exec_tx cfg o base h i inv v t in
+    (v_w v', r) = tx_pure i inv (v_w v) t /\ cache_ok base (v_cache v') (v_w v').
+  Proof.
+    intro Hc. unfold tx_pure, exec_tx. rewrite Hf, Hce, Hsi, Hsp. destruct inv; [split; [reflexivity|exact Hc]|].
+    destruct t as [ok|ok tch evs|site ids| |valid b| |b]; cbn [andb orb].
+    - cbn [rc_ok rc_svc_events v_w v_cache]. split; [reflexivity|]. destruct (ok || false); exact Hc.
+    - cbn [rc_ok rc_svc_events v_w v_cache]. split; [reflexivity|].
+      destruct ok; cbn [orb].
+      + apply gov_cache_ok. exact Hc.
+      + exact Hc.
+    - destruct (pick o h false site i ids); cbn [rc_ok rc_svc_events v_w v_cache failed orb cache_store fold_left].
+      all: split; [reflexivity|exact Hc].
+    - cbn [rc_ok rc_svc_events v_w v_cache failed orb]. split; [reflexivity|exact Hc].
+    - destruct valid.
+      + rewrite (handle_ibtp_cache cfg o base h i (v_cache v) (v_w v) b h Hc).
+        cbn [v_w v_cache].
+        pose proof (handle_ibtp_refines cfg o base h i [] (v_w v) b h) as Href.
+        destruct (handle_ibtp cfg o base h i [] (v_w v) b h) as [[w' r] rec].
+        destruct Href as [Hs He]. cbn [v_w v_cache]. split; [reflexivity|].
+        destruct (rc_ok r || false).
+        * apply cache_store_ok.
+          -- eapply cache_ok_same; eassumption.
+          -- intros e Hin. unfold ev_ok. rewrite (led_svc_same base _ _ (fst e) Hs). apply He. exact Hin.
+        * eapply cache_ok_same; eassumption.
+      + cbn [rc_ok rc_svc_events v_w v_cache failed orb]. split; [reflexivity|exact Hc].
+    - cbn [rc_ok rc_svc_events v_w v_cache failed orb]. split; [reflexivity|exact Hc].
+    - cbn [rc_ok rc_svc_events v_w v_cache failed orb]. split; [reflexivity|exact Hc].
+  Qed.
+
+  Lemma exec_txs_pure ts : forall i inv v, cache_ok base (v_cache v) (v_w v) ->
+    let '(v', rs) := exec_txs cfg o base h i inv v ts in
+    (v_w v', rs) = txs_pure i inv (v_w v) ts /\ cache_ok base (v_cache v') (v_w v').
+  Proof.
+    induction ts as [|t rest IH]; intros i inv v Hc; cbn [exec_txs txs_pure].
+    - split; [reflexivity|exact Hc].
+    - pose proof (exec_tx_pure i (match sget i inv with Some _ => true | None => false end) v t Hc) as H1.
+      destruct (exec_tx cfg o base h i _ v t) as [v1 r]. destruct H1 as [E1 Hc1].
+      rewrite <- E1.
+      pose proof (IH (i + 1) inv v1 Hc1) as H2.
+      destruct (exec_txs cfg o base h (i + 1) inv v1 rest) as [v2 rs]. destruct H2 as [E2 Hc2].
+      rewrite <- E2. split; [reflexivity|exact Hc2].
+  Qed.
+End Pure.
+
+(* ------------------------------------------------------------------------------------- *)
+(** * Commit, overlay, and the post-processing writes *)
+Lemma copy_step_sorted {A} (w : smap A) a (y : smap A) : ssorted y -> ssorted (copy_step w a y).
+Proof. intro H. unfold copy_step. destruct (sget a w); [apply ssorted_sset|]; exact H. Qed.
+Lemma fold_copy_sorted {A} (w : smap A) l : forall y, ssorted y -> ssorted (fold_right (copy_step w) y l).
+Proof. induction l as [|a t IH]; intros y H; cbn [fold_right]; [exact H|apply copy_step_sorted, IH, H]. Qed.
+Lemma commit_sorted o h w st : ssorted st -> ssorted (commit o h w st).
+Proof. apply fold_copy_sorted. Qed.
+
+Lemma sget_fold_copy {A} (w : smap A) l : forall (y : smap A) k,
+  sget k (fold_right (copy_step w) y l) =
+  match (if mem_N k l then sget k w else None) with Some x => Some x | None => sget k y end.
+Proof.
+  induction l as [|a t IH]; intros y k; cbn [fold_right mem_N existsb]; [reflexivity|].
+  unfold copy_step at 1. destruct (k =? a) eqn:E.
+  - apply N.eqb_eq in E. subst a. cbn [orb].
+    destruct (sget k w) as [x|] eqn:Ew.
+    + rewrite sget_sset_same. reflexivity.
+    + rewrite IH. fold (mem_N k t). destruct (mem_N k t); rewrite ?Ew; reflexivity.
+  - cbn [orb]. assert (k <> a) by (intro; subst; rewrite N.eqb_refl in E; discriminate).
+    destruct (sget a w).
+    + rewrite sget_sset_other by assumption. apply IH.
+    + apply IH.
+Qed.
+
+Lemma sget_in_keys {A} (w : smap A) k x : sget k w = Some x -> mem_N k (skeys w) = true.
+Proof.
+  induction w as [|[k' v] t IH]; cbn [sget skeys map fst mem_N existsb]; [discriminate|].
+  destruct (k =? k'); [reflexivity|]. intro H. cbn [orb]. apply IH. exact H.
+Qed.
+
+Lemma sget_commit_id h w st k : sget k (commit o_id h w st) = rdw st w k.
+Proof.
+  unfold commit, rdw. rewrite sget_fold_copy. change (visit o_id h S_CM0 0 (skeys w)) with (skeys w).
+  destruct (sget k w) as [x|] eqn:E.
+  - rewrite (sget_in_keys w k x E). reflexivity.
+  - destruct (mem_N k (skeys w)); reflexivity.
+Qed.
+
+Lemma overlay_id st : ssorted st -> forall A, ssorted A ->
+  (forall k v, sget k A = Some v -> sget k st = Some v) -> overlay A st = st.
+Proof.
+  intros Hs A. unfold overlay. induction A as [|[k v] t IH]; intros HA Hsub; cbn [fold_left]; [reflexivity|].
+  cbn [ssorted] in HA. destruct HA as [Hlt HA]. cbn [fst snd].
+  rewrite sset_same; [|exact Hs|apply Hsub; cbn [sget]; rewrite N.eqb_refl; reflexivity].
+  apply IH; [exact HA|]. intros k' v' Hg. apply Hsub. cbn [sget].
+  destruct (k' =? k) eqn:E; [|exact Hg].
+  apply N.eqb_eq in E. subst k'. rewrite (sget_none_lt k t Hlt) in Hg. discriminate.
+Qed.
+
+Section PostNsvc.
+  Variable o : oracle.
+  Variable base : smap val.
+  Variable h : N.
+  Local Opaque key.
+
+  Lemma stl_add_nsvc adds hh w0 w : nsvc_same w0 w -> nsvc_same w0 (stl_add base adds hh w).
+  Proof.
+    intro H. unfold stl_add, K_tl. destruct (sget hh adds); [|exact H].
+    destruct (toks_of base w hh); (apply nsvc_sset_tr; [reflexivity|discriminate|exact H]).
+  Qed.
+  Lemma stl_remove_nsvc rems hh w0 w : nsvc_same w0 w -> nsvc_same w0 (stl_remove base rems hh w).
+  Proof.
+    intro H. unfold stl_remove, K_tl. destruct (sget hh rems); [|exact H].
+    apply nsvc_sset_tr; [reflexivity|discriminate|exact H].
+  Qed.
+  Lemma set_timeout_list_nsvc w ts rs : nsvc_same w (set_timeout_list o base h w ts rs).
+  Proof.
+    unfold set_timeout_list. destruct (stl_collect base h w ts rs) as [adds rems].
+    assert (H1 : forall l, nsvc_same w (fold_right (stl_add base adds) w l)).
+    { induction l as [|a t IH]; cbn [fold_right]; [apply nsvc_refl|apply stl_add_nsvc, IH]. }
+    generalize (visit o h S_STL1 0 (skeys rems)). intro l.
+    induction l as [|a t IH]; cbn [fold_right]; [apply H1|apply stl_remove_nsvc, IH].
+  Qed.
+  Lemma rollback_step_nsvc w0 a t : nsvc_same w0 a -> nsvc_same w0 (rollback_step o base h a t).
+  Proof.
+    intro H. unfold rollback_step, K_glob, K_tx. destruct t; [exact H| |].
+    - apply nsvc_sset_tr; [reflexivity|discriminate|exact H].
+    - destruct (rdw base a (key 6 g)) as [[| | |gs gh gc ch| |]|]; try exact H.
+      apply nsvc_sset_tr; [reflexivity|discriminate|exact H].
+  Qed.
+  Lemma timeout_rollback_nsvc l : forall w0 w, nsvc_same w0 w -> nsvc_same w0 (timeout_rollback o base h w l).
+  Proof.
+    unfold timeout_rollback. induction l as [|t rest IH]; intros w0 w H; cbn [fold_left]; [exact H|].
+    apply IH. apply rollback_step_nsvc. exact H.
+  Qed.
+End PostNsvc.
+
+(* ------------------------------------------------------------------------------------- *)
+(** * One block: node-local memory that refines the disk does not influence the result *)
+Record inv (m : memory) (st : smap val) : Prop := {
+  i_pending : m_pending m = [];
+  i_sorted : ssorted st;
+  i_csorted : ssorted (m_acache m);
+  i_acache : forall k v, sget k (m_acache m) = Some v -> sget k st = Some v;
+  i_cache : cache_ok st (m_svc_cache m) []
+}.
+
+Definition mem0 (height : N) (hash : hsh) : memory := Build_memory [] [] [] false false height hash.
+
+Lemma inv_mem0 height hash st : ssorted st -> inv (mem0 height hash) st.
+Proof.
+  intro Hs. constructor; cbn; try reflexivity; try exact Hs; try exact I.
+  - intros k v H. discriminate.
+  - apply cache_ok_nil.
+Qed.
+
+Definition core_res (x : memory * smap val * list (list (N * list (N * val))) * list N * result) :=
+  let '(_, st, root, accts, r) := x in (st, root, accts, r).
+
+Lemma block_core_mem cfg m st root b :
+  c01_clean cfg -> inv m st ->
+  let x := block_core cfg o_id m st root b in
+  core_res x = core_res (block_core cfg o_id (mem0 (m_height m) (m_hash m)) st root b) /\
+  (let '(m', st', _, _, r) := x in inv m' st' /\ m_height m' = r_height r /\ m_hash m' = r_block_hash r).
+Proof.
+  intros Hc [Hp Hs Hcs Ha Hca].
+  unfold block_core. cbn [mem0 m_pending m_acache m_svc_cache m_singleton m_persister m_height m_hash].
+  rewrite Hp. rewrite (overlay_id st Hs (m_acache m) Hcs Ha).
+  change (overlay [] st) with st.
+  set (h := m_height m + 1).
+  set (ivm := invalid_map o_id h (b_invalid b)).
+  (* both executions of the transaction list are the same pure function of the write set *)
+  pose proof (exec_txs_pure cfg Hc o_id st h (b_txs b) 0 ivm
+                (Build_view [] (m_svc_cache m) (m_singleton m) (m_persister m)) Hca) as H1.
+  pose proof (exec_txs_pure cfg Hc o_id st h (b_txs b) 0 ivm
+                (Build_view [] [] false false) (cache_ok_nil st [])) as H2.
+  cbn [v_w v_cache] in H1, H2.
+  destruct (exec_txs cfg o_id st h 0 ivm (Build_view [] (m_svc_cache m) (m_singleton m) (m_persister m)) (b_txs b)) as [v1 rs].
+  destruct (exec_txs cfg o_id st h 0 ivm (Build_view [] [] false false) (b_txs b)) as [v1' rs'].
+  destruct H1 as [E1 Hc1]. destruct H2 as [E2 _]. rewrite <- E1 in E2. inversion E2 as [[Ew Er]].
+  rewrite Ew. clear E1 E2 Er.
+  set (w2 := set_timeout_list o_id st h (v_w v1) (b_txs b) rs).
+  set (w := timeout_rollback o_id st h w2 (timeout_list st w2 h)).
+  destruct (flush o_id h w) as [accts dirty].
+  cbn [core_res]. split; [reflexivity|].
+  cbn [r_height r_block_hash m_height m_hash]. split; [|split; reflexivity].
+  assert (Hns : nsvc_same (v_w v1) w).
+  { unfold w. apply timeout_rollback_nsvc. unfold w2. apply set_timeout_list_nsvc. }
+  constructor; cbn [m_pending m_acache m_svc_cache].
+  - reflexivity.
+  - apply commit_sorted. exact Hs.
+  - apply commit_sorted. exact Hcs.
+  - intros k v. unfold commit. rewrite !sget_fold_copy.
+    destruct (if mem_N k (visit o_id h S_CM0 0 (skeys w)) then sget k w else None); [trivial|apply Ha].
+  - intros s r Hg. unfold led_svc.
+    assert (E : rdw (commit o_id h w st) [] (K_svc s) = rdw st w (K_svc s)).
+    { unfold rdw at 1. cbn [sget]. apply sget_commit_id. }
+    rewrite E. fold (led_svc st w s). rewrite (led_svc_same st _ _ s Hns). apply Hc1. exact Hg.
+Qed.
+
+(** the canonical execution of a history: identity oracle, fresh memory before every block *)
+Fixpoint canon_blocks (cfg : Defects) (st : smap val) (height : N) (hash : hsh)
+         (root : list (list (N * list (N * val)))) (bs : list block) : list result :=
+  match bs with
+  | [] => []
+  | b :: rest =>
+      let '(_, st', root', _, r) := block_core cfg o_id (mem0 height hash) st root b in
+      r :: canon_blocks cfg st' (r_height r) (r_block_hash r) root' rest
+  end.
+
+Definition node_ok (m : memory) (d : disk) : Prop :=
+  inv m (dk_state d) /\ m_height m = dk_height d /\ m_hash m = dk_hash d.
+
+Lemma restart_ok m d : node_ok m d -> node_ok (restart m d) d.
+Proof.
+  intros [[_ Hs _ _ _] _]. unfold restart, reload. split; [|split; reflexivity].
+  apply (inv_mem0 (dk_height d) (dk_hash d)). exact Hs.
+Qed.
+
+Lemma exec_block_canon cfg o m d b :
+  c01_clean cfg -> oracle_ok o -> node_ok m d ->
+  let '(m', d', r) := exec_block cfg o m d b in
+  let '(_, st0, root0, _, r0) := block_core cfg o_id (mem0 (dk_height d) (dk_hash d)) (dk_state d) (dk_root d) b in
+  r = r0 /\ dk_state d' = st0 /\ dk_root d' = root0 /\ dk_height d' = r_height r /\ dk_hash d' = r_block_hash r /\ node_ok m' d'.
+Proof.
+  intros Hc Hok [Hinv [Hh Hha]]. unfold exec_block.
+  pose proof (block_core_oracle cfg o m (dk_state d) (dk_root d) b Hc Hok) as H1.
+  pose proof (block_core_mem cfg m (dk_state d) (dk_root d) b Hc Hinv) as H2.
+  cbv zeta in H2. rewrite Hh, Hha in H2.
+  destruct (block_core cfg o m (dk_state d) (dk_root d) b) as [[[[m1 st1] root1] a1] r1].
+  destruct (block_core cfg o_id m (dk_state d) (dk_root d) b) as [[[[m2 st2] root2] a2] r2].
+  destruct (block_core cfg o_id (mem0 (dk_height d) (dk_hash d)) (dk_state d) (dk_root d) b) as [[[[m3 st3] root3] a3] r3].
+  cbn [core_out] in H1. cbn [core_res] in H2. destruct H2 as [E2 [Hinv2 [Hh2 Hha2]]].
+  inversion H1; subst. inversion E2; subst.
+  cbn [dk_state dk_root dk_height dk_hash]. repeat (split; [reflexivity|]).
+  unfold node_ok. cbn [dk_state dk_root dk_height dk_hash]. split; [exact Hinv2|split; assumption].
+Qed.
+
+Lemma run_blocks_canon cfg o rs bs : c01_clean cfg -> oracle_ok o ->
+  forall n m d, node_ok m d ->
+  run_blocks cfg o rs n m d bs = canon_blocks cfg (dk_state d) (dk_height d) (dk_hash d) (dk_root d) bs.
+Proof.
+  intros Hc Hok. induction bs as [|b rest IH]; intros n m d Hn; cbn [run_blocks canon_blocks]; [reflexivity|].
+  set (m1 := if rs n then restart m d else m).
+  assert (Hn1 : node_ok m1 d) by (unfold m1; destruct (rs n); [apply restart_ok|]; exact Hn).
+  pose proof (exec_block_canon cfg o m1 d b Hc Hok Hn1) as H.
+  destruct (exec_block cfg o m1 d b) as [[m2 d2] r].
+  destruct (block_core cfg o_id (mem0 (dk_height d) (dk_hash d)) (dk_state d) (dk_root d) b) as [[[[m0 st0] root0] a0] r0].
+  destruct H as (Er & Es & Ero & Eh & Eha & Hn2). subst r0.
+  f_equal. rewrite (IH (S n) m2 d2 Hn2). rewrite Es, Ero, Eh, Eha. reflexivity.
+Qed.
+
+Lemma genesis_canon cfg o g : c01_clean cfg -> oracle_ok o ->
+  let '(m, d, r) := genesis cfg o g in
+  let '(_, d0, r0) := genesis cfg o_id g in
+  r = r0 /\ dk_state d = dk_state d0 /\ dk_height d = dk_height d0 /\ dk_hash d = dk_hash d0 /\ dk_root d = dk_root d0 /\ node_ok m d.
+Proof.
+  intros Hc Hok. unfold genesis.
+  assert (Hb : d_bns_after_flush cfg = false) by (destruct Hc as (_ & _ & _ & H & _); exact H).
+  rewrite Hb.
+  set (w1 := fold_left (fun w kv => sset (fst kv) (snd kv) w) bns_data (fold_left (fun w kv => sset (fst kv) (snd kv) w) g [])).
+  pose proof (flush_dirty_id o Hok 1 w1) as Hfl.
+  destruct (flush o 1 w1) as [a1 d1]. destruct (flush o_id 1 w1) as [a2 d2]. cbn [snd] in Hfl. subst d2.
+  rewrite (commit_id o Hok).
+  cbn [dk_state dk_height dk_hash dk_root]. repeat (split; [reflexivity|]).
+  unfold node_ok. cbn [dk_state dk_height dk_hash m_height m_hash]. split; [|split; reflexivity].
+  constructor; cbn [m_pending m_acache m_svc_cache].
+  - reflexivity.
+  - apply commit_sorted. exact I.
+  - apply commit_sorted. exact I.
+  - intros k v H. exact H.
+  - apply cache_ok_nil.
+Qed.
+
+(** * C01: the block results do not depend on the oracle family or on the restart placement *)
+Theorem exec_oracle_independent cfg : c01_clean cfg ->
+  forall (g : list (N * val)) (bs : list block) (o1 o2 : oracle) (r1 r2 : nat -> bool),
+  oracle_ok o1 -> oracle_ok o2 ->
+  run cfg o1 r1 g bs = run cfg o2 r2 g bs.
+Proof.
+  intros Hc g bs o1 o2 r1 r2 H1 H2. unfold run.
+  pose proof (genesis_canon cfg o1 g Hc H1) as G1.
+  pose proof (genesis_canon cfg o2 g Hc H2) as G2.
+  destruct (genesis cfg o1 g) as [[m1 d1] x1].
+  destruct (genesis cfg o2 g) as [[m2 d2] x2].
+  destruct (genesis cfg o_id g) as [[m0 d0] x0].
+  destruct G1 as (E1 & S1 & Hh1 & Ha1 & R1 & N1).
+  destruct G2 as (E2 & S2 & Hh2 & Ha2 & R2 & N2).
+  subst x1 x2. f_equal.
+  rewrite (run_blocks_canon cfg o1 r1 bs Hc H1 0%nat m1 d1 N1).
+  rewrite (run_blocks_canon cfg o2 r2 bs Hc H2 0%nat m2 d2 N2).
+  rewrite S1, S2, Hh1, Hh2, Ha1, Ha2, R1, R2. reflexivity.
+Qed.
+
+Lemma cfg_fixed_clean k : c01_clean (cfg_fixed_with k).
+Proof. repeat split. Qed.
+
+Corollary exec_oracle_independent_fixed :
+  forall (g : list (N * val)) (bs : list block) (o1 o2 : oracle) (r1 r2 : nat -> bool),
+  oracle_ok o1 -> oracle_ok o2 ->
+  run cfg_fixed o1 r1 g bs = run cfg_fixed o2 r2 g bs.
+Proof. apply exec_oracle_independent. apply cfg_fixed_clean. Qed.
